@@ -36,7 +36,7 @@ def run_config(chk, tier, cfgname):
             for s in bb["s"]:
                 if s["k"] == "assign" and s["r"]["k"] == "agg" and s["r"]["ak"].get("def") == "arena::MarkedArena":
                     sites.append(prog.fn_of_closure(__import__("gcv.model", fromlist=["norm"]).norm(d_raw)))
-    chk.floor("MarkedArena-construction-sites", len(sites), 2)
+    chk.floor("MarkedArena-construction-sites", len(sites), 1)
     bad = [s for s in sites if s not in ("arena::Arena::mark_debt", "arena::Arena::finish_marking")]
     chk.inst("MarkedArena-constructed-only-by-protocol-checked-methods", "arena::MarkedArena", not bad,
              detail="MarkedArena constructed in %s, whose Some/None contract is not covered by the protocol rows" % bad)
